@@ -23,12 +23,12 @@ Definition bckind (c : cmd) : option skind :=
   | _ => None
   end.
 
-(* the begin commands of the fragment: non-negative arity, no record named "" *)
+(* the begin commands of the fragment: non-negative arity *)
 Definition bcok (c : cmd) : Prop :=
   match c with
   | CBeginList => True
   | CBeginTuple n => 0 <= n
-  | CBeginRecord nm => nm <> Some []
+  | CBeginRecord nm => True
   | _ => False
   end.
 
@@ -69,19 +69,15 @@ Proof.
   - exists (BRecord [] [] (match nm with Some s => s | None => [] end)
                     (match nm with Some _ => false | None => true end) 0 false (-1) 0).
     refine (conj eq_refl (conj _ (conj _ eq_refl))).
-    + apply rep_record. refine (conj eq_refl (conj eq_refl (conj _ (conj _ (conj eq_refl (conj eq_refl I)))))).
-      * destruct nm; [discriminate|reflexivity].
-      * destruct nm; [|discriminate]. intros _ ->. now apply B.
+    + apply rep_record. exact (conj eq_refl (conj eq_refl (conj eq_refl (conj eq_refl I)))).
     + cbn [bkind bckind]. destruct nm; reflexivity.
 Qed.
 
 (* ------------------------------------------------------------------ a closed node that takes / does not take the begin *)
 Lemma name_same rn nullp nm :
-  (nullp = true -> rn = []) -> (nullp = false -> rn <> []) -> nm <> Some [] ->
-  (match nm with Some s => name_eqb rn s | None => nullp end) = true <-> rname rn nullp = nm.
+  (match nm with Some s => negb nullp && name_eqb rn s | None => nullp end) = true <-> rname rn nullp = nm.
 Proof.
-  intros H1 H2 H3. unfold rname. destruct nm as [s|], nullp; split; intro H; try discriminate; auto.
-  - rewrite (H1 eq_refl) in H. apply name_eqb_eq in H. subst. now elim H3.
+  unfold rname. destruct nm as [s|], nullp; cbn [negb andb]; split; intro H; try discriminate; auto.
   - apply name_eqb_eq in H. now subst.
   - inversion H. apply name_eqb_refl.
 Qed.
@@ -92,9 +88,9 @@ Proof.
   intros R B T.
   destruct x as [n0|g|g|g|e a0 b0|idx0 ct|offs ct bg|cs keys rn nullp len bg ni ntt|cs len bg ni|tags idx0 cs cur]; try discriminate T; destruct bc; cbn [bcok] in B; try contradiction; cbn [takes bkind bckind];
     try (split; intro H; discriminate H); try tauto.
-  - apply rep_record in R. destruct R as (_ & -> & H1 & H2 & _).
+  - apply rep_record in R. destruct R as (_ & -> & _).
     rewrite (nonneg_neq_m1 _ (zlen_nonneg ws)). cbn [orb].
-    rewrite (name_same rn nullp nm H1 H2 B). split; [now intros ->|now intros [=]].
+    rewrite (name_same rn nullp nm). split; [now intros ->|now intros [=]].
   - apply rep_tuple in R. destruct R as (_ & -> & _).
     rewrite (nonneg_neq_m1 _ (zlen_nonneg ws)). cbn [orb]. unfold zlen. split.
     + intro H. apply Z.eqb_eq in H. do 2 f_equal. lia.
@@ -107,7 +103,7 @@ Proof.
   intros R B T K. pose proof (proj2 (takes_kind x ws bc R B T) K) as Tk.
   destruct x as [n0|g|g|g|e a0 b0|idx0 ct|offs ct bg|cs keys rn nullp len bg ni ntt|cs len bg ni|tags idx0 cs cur]; try discriminate T; destruct bc; cbn [bcok] in B; try contradiction; try discriminate K; try discriminate Tk.
   - destruct R as (-> & _). reflexivity.
-  - apply rep_record in R. destruct R as (-> & -> & H1 & H2 & _).
+  - apply rep_record in R. destruct R as (-> & -> & _).
     cbn [takes] in Tk. rewrite (nonneg_neq_m1 _ (zlen_nonneg ws)) in Tk. cbn [orb] in Tk.
     cbn [step]. rewrite (nonneg_neq_m1 _ (zlen_nonneg ws)). cbv iota beta. rewrite Tk. reflexivity.
   - apply rep_tuple in R. destruct R as (-> & -> & _).
@@ -128,7 +124,7 @@ Proof.
   - destruct bc; cbn [bcok] in B; try contradiction; reflexivity.
   - destruct bc; cbn [bcok] in B; try contradiction; reflexivity.
   - destruct R as (-> & _). destruct bc; cbn [bcok] in B; try contradiction; try reflexivity.
-  - apply rep_record in R. destruct R as (-> & -> & H1 & H2 & _).
+  - apply rep_record in R. destruct R as (-> & -> & _).
     destruct bc; cbn [bcok] in B; try contradiction; try reflexivity.
     cbn [takes] in Tk. rewrite (nonneg_neq_m1 _ (zlen_nonneg ws)) in Tk. cbn [orb] in Tk.
     cbn [step]. rewrite (nonneg_neq_m1 _ (zlen_nonneg ws)). cbv iota beta. rewrite Tk. reflexivity.
